@@ -383,3 +383,20 @@ def is_single(s):
 
 def rename_keys(d, m):
     return {m.get(k, k): v for k, v in d.items()}
+
+
+def strip_num(name, number):
+    key = name.rstrip(number)
+    return key
+
+
+def store_none(d, k, x):
+    b = x
+    if b is not None:
+        b = b + 1
+    d[k] = b
+    return 0
+
+
+def neg_div(x):
+    return (x // -3, x % -3, x // 4, x % 4)
